@@ -2,17 +2,17 @@ CONSTANTS
  Confs <- MCConfs
  FixWaitErr = FALSE
  Reduce = TRUE
- MCShapes = {"img", "dup", "idx2", "nested", "art", "dtag", "bentry", "inline"}
- MCPairs = {"tworeg", "samereg", "samerepo", "reg2dir", "dir2reg", "dir2dir"}
+ MCShapes = {"img", "idx2", "art", "dtag"}
+ MCPairs = {"tworeg", "samereg", "reg2dir"}
  MCOpts <- MCOptsCore
  MCFeats <- MCFeatsCore
  MCInit = "corners"
- MCTag0 = {"none", "stale", "same"}
- MCByDigest = {FALSE, TRUE}
+ MCTag0 = {"none", "same"}
+ MCByDigest = {FALSE}
  MCTgtByDigest = {FALSE}
  MaxFaults = 0
  AllowCancel = FALSE
- AllowCrash = TRUE
+ AllowCrash = FALSE
  Cap = 0
 INIT Init
 NEXT Next
